@@ -142,6 +142,7 @@ def replay_schedule(n, k, chooser, fail_at=-1, use_config_default=False):
     model = PoolModel(n, k)
     order = []
     concurrency = 0
+    visited = []
     while not model.done():
         expect = model.started()
         deadline = time.time() + WATCHDOG
@@ -161,6 +162,7 @@ def replay_schedule(n, k, chooser, fail_at=-1, use_config_default=False):
         running = model.running()
         concurrency = max(concurrency, len(running))
         task = running[chooser(len(running))]
+        visited.append((tuple(sorted(model.finished)), tuple(running), task))
         RELEASE[task].set()
         if not DONE[task].wait(WATCHDOG):
             for event in RELEASE:
@@ -175,6 +177,7 @@ def replay_schedule(n, k, chooser, fail_at=-1, use_config_default=False):
     thread.join(WATCHDOG)
     if thread.is_alive():
         raise Divergence("parallel_function did not return")
+    box["visited"] = visited
     return box, order, concurrency
 
 
@@ -209,9 +212,13 @@ def check_schedules(n, k, bound, stats=None):
             fails.append(("result-differs-from-sequential", f"n={n} cpus=1: {result}"))
         return fails, 1
     chooser = _Chooser()
+    states, transitions = set(), set()
 
     def run():
         box, order, conc = replay_schedule(n, k, chooser.choose)
+        for finished, running, task in box.get("visited", []):
+            states.add((finished, running))
+            transitions.add((finished, running, task))
         return (repr(box.get("result")), repr(box.get("error")), tuple(order), conc)
     for schedule, points, outcome in explore(run, chooser, bound):
         count += 1
@@ -224,6 +231,9 @@ def check_schedules(n, k, bound, stats=None):
             fails.append(("schedule-raised", f"n={n} k={k} schedule={schedule}: {error_text[:120]}"))
         elif result_text != repr(expected):
             fails.append(("result-differs-from-sequential", f"n={n} k={k} completion order {list(order)}: {result_text[:200]}"))
+    if stats is not None:
+        stats["model:states"] += len(states) + 1      # + the final all-finished state
+        stats["model:transitions"] += len(transitions)
     return fails, count
 
 
@@ -341,8 +351,8 @@ def run_shard(shard):
         res.evals += count
         res.nontrivial += count if (n > 1 and k > 1) else 0
         res.extra["traces_validated_against_impl"] = count
-        res.extra["states"] = n + 1
-        res.extra["transitions"] = count * n
+        res.extra["states"] = res.buckets.get("model:states", 1)
+        res.extra["transitions"] = res.buckets.get("model:transitions", 1)
         res.outcomes[("schedules", n, k, len(fails))] += 1
         case = {"kind": "schedules", "n": n, "k": k, "bound": bound}
         for clause, detail in fails:
